@@ -1,4 +1,140 @@
-(** Wire entry points of property C16 (stub: replaced when the model is built). *)
-From Coq Require Import ZArith List.
-From PLV Require Import Base.Wire.
-Definition entry (sub : Z) (inp : list Z) : list Z := bad_input.
+(** Wire entry points of property C16 (the pylatexenc-2 compatible API).
+
+    Every sub-entry starts with the context selector (0 = generated default
+    walker context, 1 = a custom context on the wire), the string, the
+    tolerant flag and the parsing-state variant (0 = the walker's default
+    state, 1 = its [sub_context(in_math_mode=True)]); the legacy call is made at
+    EVERY start position [0..len s] and the dumps are joined by " | ".
+
+    sub 0 get_token            include_brace_chars (opt list of pairs), brackets_are_chars (tri), environments (tri)
+    sub 1 get_latex_nodes      stop_upon_closing_brace, _end_environment, _closing_mathmode (opt str each), read_max_nodes (opt nat)
+    sub 2 get_latex_expression strict_braces (tri)
+    sub 3 get_latex_braced_group  brace_type (1 or 2 characters)
+    sub 4 get_latex_environment   environmentname (opt str)
+    sub 5 get_latex_maybe_optional_arg
+    sub 7 MacroStandardArgsParser(a, optional_arg_no_space, args_math_mode).parse_args at every position
+    sub 6 (no header) spelling id, argument string  /  id 8: std_macro(name, optarg, numargs) *)
+From Coq Require Import NArith ZArith List Bool.
+From PLV Require Import Base.PyStr Base.Wire Tok.PState Tok.Tokenizer Tok.TokWire Parse.Nodes Parse.Parser
+     Parse.ParseWire Parse.Legacy.
+From PLV Require Gen.GenWalkerCtx.
+Import ListNotations.
+
+(** 0 = None / absent, 1 = True, 2 = False *)
+Definition rd_tri : rd (option bool) :=
+  fun l => match l with
+           | 0%Z :: r => Some (None, r) | 1%Z :: r => Some (Some true, r) | 2%Z :: r => Some (Some false, r)
+           | _ => None end.
+
+Definition show_lres {A} (f : A -> str) (x : lres A) : str :=
+  match x with
+  | LOk a => f a
+  | LErr p => [101;114;114;32]%N ++ show_opt show_nat p          (* "err <pos>" *)
+  | LEOS => [101;111;115]%N                                      (* eos *)
+  | LExn k => [101;120;110;32]%N ++ show_nat k                   (* "exn k" *)
+  | LFuel => [102;117;101;108]%N                                 (* fuel *)
+  end.
+
+(** "ok <node>@<pos>+<len>" *)
+Definition show_triple (t : ltriple) : str :=
+  [111;107;32]%N ++ show_onode (lt_node t) ++ 64%N :: show_opt show_nat (lt_pos t)
+    ++ 43%N :: show_opt show_Z (lt_len t).
+Definition show_otriple (o : option ltriple) : str :=
+  match o with Some t => show_triple t | None => [110;111;110;101]%N end.     (* none *)
+Definition show_args (x : list (option node) * nat) : str :=
+  [111;107;32]%N ++ show_list show_onode (fst x) ++ 64%N :: show_nat (snd x).
+
+Definition all_positions (s : str) : list nat := seq 0 (S (length s)).
+Definition at_all (s : str) (f : nat -> str) : list Z :=
+  to_wire (join [32;124;32]%N (map f (all_positions s))).
+
+Definition state_variant (cx : context) (v : Z) : pstate :=
+  if Z.eqb v 1 then sub_context (walker_state cx) [UInMath true] else walker_state cx.
+
+Definition rd_header : rd (context * str * bool * Z) :=
+  bind (fun l => match l with
+                 | 0%Z :: r => Some (Gen.GenWalkerCtx.default_ctx, r)
+                 | 1%Z :: r => rd_context r
+                 | _ => None end) (fun cx =>
+  bind rd_str (fun s => bind rd_bool (fun tol => bind rd_Z (fun v => ret (cx, s, tol, v))))).
+
+Definition show_aparser (p : option aparser) : str :=
+  match p with
+  | None => [114;97;105;115;101]%N                                              (* raise *)
+  | Some q =>
+      (match q with
+       | PNew _ => [110;101;119]%N                                              (* new *)
+       | PNoArgs => [110;111;97;114;103;115]%N                                  (* noargs *)
+       | PWrap o => [119;114;97;112]%N ++ show_bool (lo_noopt o)                (* wrapT / wrapF *)
+       end) ++ 32%N :: show_list show_str (parser_argspec q)
+  end.
+
+Definition spelling_of (z : Z) : option spelling :=
+  match z with
+  | 0%Z => Some SpArgsParserString | 1%Z => Some SpPositional | 2%Z => Some SpStdMacro
+  | 3%Z => Some SpStdMacroNone | 4%Z => Some SpStdEnvironment | 5%Z => Some SpLegacyKw
+  | 6%Z => Some SpLegacyKwArgspec | 7%Z => Some SpLegacyPositional | _ => None
+  end.
+
+Definition entry (sub : Z) (inp : list Z) : list Z :=
+  if Z.eqb sub 6 then
+    match inp with
+    | 8%Z :: r =>
+        match bind rd_tri (fun o => bind rd_nat (fun n => ret (o, n))) r with
+        | Some ((o, n), _) => to_wire (show_aparser (std_macro (SAOptNum o n)))
+        | None => bad_input
+        end
+    | z :: r =>
+        match spelling_of z, rd_str r with
+        | Some sp, Some (a, _) => to_wire (show_aparser (spell sp a))
+        | _, _ => bad_input
+        end
+    | [] => bad_input
+    end
+  else
+  match rd_header inp with
+  | None => bad_input
+  | Some ((cx, s, tol, v), r) =>
+    let ps := state_variant cx v in
+    if Z.eqb sub 0 then
+      match bind (rd_opt rd_delims) (fun i => bind rd_tri (fun b => bind rd_tri (fun e => ret (i, b, e)))) r with
+      | Some ((i, b, e), _) =>
+          at_all s (fun p => show_lres show_token (legacy_get_token s tol ps p i b e))
+      | None => bad_input
+      end
+    else if Z.eqb sub 1 then
+      match bind (rd_opt rd_str) (fun b => bind (rd_opt rd_str) (fun e => bind (rd_opt rd_str) (fun m =>
+            bind (rd_opt rd_nat) (fun mx => ret (b, e, m, mx))))) r with
+      | Some ((b, e, m, mx), _) =>
+          at_all s (fun p => show_lres show_triple (legacy_get_latex_nodes s tol cx ps p b e m mx))
+      | None => bad_input
+      end
+    else if Z.eqb sub 2 then
+      match rd_tri r with
+      | Some (sb, _) =>
+          at_all s (fun p => show_lres show_triple (legacy_get_latex_expression s tol cx ps p sb))
+      | None => bad_input
+      end
+    else if Z.eqb sub 3 then
+      match rd_str r with
+      | Some (bt, _) =>
+          at_all s (fun p => show_lres show_triple (legacy_get_latex_braced_group s tol cx ps p bt))
+      | None => bad_input
+      end
+    else if Z.eqb sub 4 then
+      match rd_opt rd_str r with
+      | Some (nm, _) =>
+          at_all s (fun p => show_lres show_triple (legacy_get_latex_environment s tol cx ps p nm))
+      | None => bad_input
+      end
+    else if Z.eqb sub 5 then
+      at_all s (fun p => show_lres show_otriple (legacy_get_latex_maybe_optional_arg s tol cx ps p))
+    else if Z.eqb sub 7 then
+      match bind rd_str (fun a => bind rd_bool (fun no => bind (rd_opt (rd_list rd_tri)) (fun amm =>
+            ret (a, no, amm)))) r with
+      | Some ((a, no, amm), _) =>
+          at_all s (fun p => show_lres show_args (legacy_parse_args s tol cx ps a no amm p))
+      | None => bad_input
+      end
+    else bad_input
+  end.
